@@ -334,9 +334,35 @@ pub fn rand_addr_fields(rng: &mut Rng) -> String {
         };
         format!("fam=4,ip={},port={}", hex(&ip), port)
     } else {
-        let ip = match rng.below(5) {
+        let ip = match rng.below(8) {
             0 => vec![0; 16],
             1 => vec![255; 16],
+            // special IPv6 forms a "dual-stack" shortcut could treat differently: IPv4-mapped,
+            // IPv4-compatible, 6to4, loopback
+            5 => {
+                let mut v = vec![0u8; 10];
+                v.extend([0xff, 0xff]);
+                v.extend(rng.bytes(4));
+                v
+            }
+            6 => {
+                let mut v = vec![0u8; 12];
+                v.extend(rng.bytes(4));
+                v
+            }
+            7 => match rng.below(2) {
+                0 => {
+                    let mut v = vec![0x20, 0x02];
+                    v.extend(rng.bytes(4));
+                    v.extend(vec![0u8; 10]);
+                    v
+                }
+                _ => {
+                    let mut v = vec![0u8; 15];
+                    v.push(1);
+                    v
+                }
+            },
             2 => {
                 let mut v = vec![0x21, 0x12, 0xa4, 0x42];
                 v.extend(rng.bytes(12));
@@ -405,7 +431,15 @@ pub fn rand_fields(rng: &mut Rng, kind: &str) -> String {
                 1 => (1u128 << 96) - 1,
                 _ => rng.u128() & ((1u128 << 96) - 1),
             };
-            format!("{},tid={:024x}", rand_addr_fields(rng), tid)
+            if rng.chance(1, 6) {
+                // an IPv6 address whose XORed (stored / wire) form is an IPv4-mapped address
+                let wire: u128 = (0xffffu128 << 32) | (rng.below(1 << 32) as u128);
+                let key: u128 = (0x2112a442u128 << 96) | tid;
+                let port = rng.below(65536);
+                format!("fam=6,ip={:032x},port={},tid={:024x}", wire ^ key, port, tid)
+            } else {
+                format!("{},tid={:024x}", rand_addr_fields(rng), tid)
+            }
         }
         "AlternateServer" => rand_addr_fields(rng),
         "Priority" => format!("p={}", match rng.below(4) { 0 => 0, 1 => u32::MAX as u64, _ => rng.below(1 << 32) }),
